@@ -82,6 +82,11 @@ def _winit(prop, tier, variant):
 def classify_death(r):
     """a run that did not finish: what kind of event was it"""
     if r.result is None:
+        ws = r.wstatus
+        if os.WIFEXITED(ws) and os.WEXITSTATUS(ws) == 77:
+            return {"class": "died.sanitizer", "msg": "sanitizer report (no result record): " + san_summary(r.stderr), "manifestation": "sanitizer", "report": san_summary(r.stderr), "cur_op": last_inv_op(r), "cur_tid": 0}
+        if os.WIFSIGNALED(ws):
+            return {"class": "died.signal", "msg": "killed by signal %d" % os.WTERMSIG(ws), "manifestation": "signal", "cur_op": last_inv_op(r), "cur_tid": 0}
         return {"class": "sim.noresult", "msg": r.why(), "sim_failure": True}
     code = r.result.get("exit")
     why = r.result.get("why", "")
@@ -92,6 +97,11 @@ def classify_death(r):
     if kind == "sanitizer":
         d["report"] = san_summary(r.stderr)
     return d
+
+def last_inv_op(r):
+    for e in reversed(r.hist):
+        if e.get("e") == "inv": return e.get("op")
+    return None
 
 def san_summary(err):
     for ln in err.splitlines():
